@@ -23,7 +23,7 @@ PY
     tools/harmless_confirm.sh $src $id-$n
   done; }
 export -f one; export rt sa sb
-printf "%s\n" $ids | xargs -P 5 -I{} bash -c 'one {}'
+[ -n "$SKIP_CONFIRM" ] || printf "%s\n" $ids | xargs -P 5 -I{} bash -c 'one {}'
 names=""; for id in $ids; do for s in $sa $sb; do [ -d seeded/$id-$s ] && names="$names $id-$s"; done; done
 genlane() { for n in $names; do g=""; for c in $(neighbours ${n%%-*}); do case $c in C03|C05|C12) g="$g $c";; esac; done
     [ -n "$g" ] && OUT=result_gen.txt tools/seeded_run.sh $n $g > .cache/full_${n}_gen.log 2>&1; done; }
